@@ -262,6 +262,18 @@ def run(ctx):
         same(f'{name}: training loss of example {i} (alone vs in batch {comp})', single[i][1], loss[pos])
       ctx.case(key=('rows', name, tuple(comp)), nontrivial=True)
 
+  def pad_independence(name, model, make_rows, nrows=4):
+    """PAD is the id the dataset pads with: padding a batch further (more PAD columns) changes no row's training loss."""
+    params = model.init(jax.random.PRNGKey(2))
+    rows = make_rows(nrows)
+    base = np.asarray(model.train_loss(rows, model.apply_for_eval(params, rows)))
+    for extra in (1, 3):
+      wider = {k: np.pad(v, ((0, 0), (0, extra))) for k, v in rows.items()}
+      loss = np.asarray(model.train_loss(wider, model.apply_for_eval(params, wider)))
+      for i in range(nrows):
+        same(f'{name}: training loss of row {i} (padded to length L vs L+{extra})', base[i], loss[i])
+      ctx.case(key=('pad-length', name, extra), nontrivial=True)
+
   def emnist_rows(k):
     return {'x': nprng.rand(k, 28, 28, 1).astype(np.float32), 'y': nprng.randint(0, 10, size=(k,)).astype(np.int32)}
 
@@ -285,6 +297,14 @@ def run(ctx):
                                                                                      share_input_output_embeddings=True), seq_rows(20, 6))
     row_independence('stackoverflow lstm (expected length)', mso.create_lstm_model(vocab_size=20, embed_size=8, lstm_hidden_size=8, lstm_num_layers=1,
                                                                                    expected_length=3.0), seq_rows(20, 5))
+  # (StackOverflow only: its loss is a SUM over real tokens; the Shakespeare loss is by definition the mean over the fixed
+  # sequence length its dataset produces, padding included)
+  if so_ok:
+    pad_independence('stackoverflow lstm', mso.create_lstm_model(vocab_size=20, embed_size=8, lstm_hidden_size=8, lstm_num_layers=1), seq_rows(20, 6))
+    pad_independence('stackoverflow lstm (expected length)', mso.create_lstm_model(vocab_size=20, embed_size=8, lstm_hidden_size=8, lstm_num_layers=1,
+                                                                                   expected_length=3.0), seq_rows(20, 5))
+    pad_independence('stackoverflow lstm (shared embeddings, expected length)',
+                     mso.create_lstm_model(vocab_size=20, embed_size=8, lstm_hidden_size=8, lstm_num_layers=2, share_input_output_embeddings=True, expected_length=13.3), seq_rows(20, 6))
   vs, _ = vtraces.validate_batch(ctx, 'PureHistory', [{'events': ev}], {}, 'PH')
   v = vs[0]
   if not v.ok:
